@@ -612,6 +612,176 @@ fn run_protocol(ctx: &Ctx) {
 }
 
 // ---------------------------------------------------------------------------------------
+// (a') max_tokens=: the language depends on token boundaries, so the reference is a token-level model
+
+/// grammar: seg_0 "," seg_1 "," ... ; seg_i = a gen-style rule `g_i[max_tokens=N_i]: /[CLASS]*/` (or `+`)
+struct MtSeg {
+    class: &'static [u8],
+    min_len: usize,
+    max_tokens: usize,
+}
+
+fn run_max_tokens(ctx: &Ctx) {
+    let mut v1 = vocab::bytes_vocab(b"abc,x");
+    v1.tokens.pop();
+    v1.tokens.push(b"ab".to_vec());
+    v1.tokens.push(b"bc".to_vec());
+    v1.tokens.push(vocab::EOS_BYTES.to_vec());
+    v1.eos = v1.tokens.len() as u32 - 1;
+    v1.name = "P(8)".into();
+    let cases: Vec<(String, Vec<MtSeg>)> = {
+        let mut c = vec![];
+        for n in 1..=3usize {
+            c.push((format!("start: g \",\"\ng[max_tokens={n}]: /[a-c]*/"), vec![MtSeg { class: b"abc", min_len: 0, max_tokens: n }, MtSeg { class: b"", min_len: 0, max_tokens: 0 }]));
+            c.push((format!("start: \"x\" g\ng[max_tokens={n}]: /[a-c]+/"), vec![MtSeg { class: b"abc", min_len: 1, max_tokens: n }]));
+        }
+        c.push(("start: g \",\" h\ng[max_tokens=2]: /[a-c]*/\nh[max_tokens=1]: /[ab]+/".to_string(), vec![MtSeg { class: b"abc", min_len: 0, max_tokens: 2 }, MtSeg { class: b"ab", min_len: 1, max_tokens: 1 }]));
+        c
+    };
+    let depth = ctx.tier.pick(5, 6);
+    let n = AtomicU64::new(0);
+    cases.par_iter().for_each(|(src, segs)| {
+        let f = Factory::new(&v1, &Slices::Default).unwrap();
+        let g = GrammarSpec::Lark(src.clone());
+        let prefix_x = src.contains("\"x\" g");
+        let Ok(root) = f.try_matcher(&g) else {
+            ctx.machinery_error(format!("max_tokens grammar refused: {src}"));
+            return;
+        };
+        // model state: (seen the leading x, segment index, bytes in segment, tokens in segment, done)
+        #[derive(Clone)]
+        struct St {
+            x: bool,
+            seg: usize,
+            len: usize,
+            toks: usize,
+        }
+        let nv = v1.n() as u32;
+        let legal = |st: &St| -> (Vec<u32>, bool) {
+            // returns (legal tokens, accepting)
+            if prefix_x && !st.x {
+                return (vec![v1.tokens.iter().position(|t| t == b"x").unwrap() as u32], false);
+            }
+            let sg = &segs[st.seg];
+            let last = st.seg + 1 == segs.len();
+            let accepting = last && st.len >= sg.min_len;
+            let mut l = vec![];
+            for t in 0..nv {
+                let b = &v1.tokens[t as usize];
+                if t == v1.eos {
+                    if accepting {
+                        l.push(t);
+                    }
+                } else if b == b"," {
+                    if !last && st.len >= sg.min_len {
+                        l.push(t);
+                    }
+                } else if !b.is_empty() && b.iter().all(|x| sg.class.contains(x)) && st.toks < sg.max_tokens {
+                    l.push(t);
+                }
+            }
+            (l, accepting)
+        };
+        let mut stack = vec![(root, St { x: false, seg: 0, len: 0, toks: 0 }, Vec::<u32>::new())];
+        while let Some((m, st, hist)) = stack.pop() {
+            crate::watchdog::beat();
+            n.fetch_add(1, Ordering::Relaxed);
+            let (l, acc) = legal(&st);
+            let exp_stopped = acc && l.iter().all(|t| *t == v1.eos) && !hist.is_empty();
+            let mk = |check: &str, what: serde_json::Value| Violation {
+                check: format!("max_tokens:{check}"),
+                class: "protocol-mask-mismatch".into(),
+                signature: format!("max_tokens|{}|{}|{:?}", check, src, hist),
+                detail: json!({"kind": "engine_history", "grammar": g.to_json(), "vocab": v1.to_json(), "slices": Slices::Default.to_json(), "history": hist, "what": what}),
+            };
+            if m.is_error() {
+                ctx.violation(mk("error_after_legal_commits", json!({"err": m.get_error()})));
+                return;
+            }
+            // The documentation promises an upper bound ("limits the number of tokens generated for the
+            // terminal"); which token is the first one counted is not specified (the engine counts the token
+            // in which the terminal starts). So the model is one-sided for the limited tokens: the engine may
+            // end the terminal earlier than the model's count, never later; everything else is exact.
+            if exp_stopped && !m.is_stopped() {
+                ctx.violation(mk("not_stopped_at_limit", json!({"engine": m.is_stopped(), "model": exp_stopped})));
+                return;
+            }
+            if m.is_stopped() {
+                if !acc {
+                    ctx.violation(mk("stopped_on_incomplete_text", json!({})));
+                    return;
+                }
+                continue;
+            }
+            let mut c = m.clone();
+            if c.is_accepting().unwrap_or(false) != acc {
+                ctx.violation(mk("accepting_flag", json!({"engine": !acc, "model": acc})));
+                return;
+            }
+            let em: Vec<u32> = match c.compute_mask() {
+                Ok(mask) => {
+                    let em = mask_to_vec(&mask);
+                    let beyond: Vec<u32> = em.iter().copied().filter(|t| !l.contains(t)).collect();
+                    let is_limited = |t: &u32| *t != v1.eos && v1.tokens[*t as usize] != b",";
+                    let missing_exact: Vec<u32> = l.iter().copied().filter(|t| !em.contains(t) && !is_limited(t)).collect();
+                    // limited tokens: all of the model's or none of them (the limit is per terminal, not per token)
+                    let lim_model: Vec<u32> = l.iter().copied().filter(|t| is_limited(t)).collect();
+                    let lim_engine: Vec<u32> = em.iter().copied().filter(|t| is_limited(t)).collect();
+                    if !beyond.is_empty() || !missing_exact.is_empty() || !(lim_engine.is_empty() || lim_engine == lim_model) {
+                        ctx.violation(mk("mask_vs_token_model", json!({"engine": em, "model": l, "beyond_the_limit_or_language": beyond, "missing": missing_exact})));
+                        return;
+                    }
+                    em
+                }
+                Err(e) => {
+                    ctx.violation(mk("mask_error", json!({"err": e.to_string()})));
+                    return;
+                }
+            };
+            // rollback is documented as unsupported for these grammars: it must err, never succeed
+            if !hist.is_empty() && m.clone().rollback(1).is_ok() {
+                ctx.violation(mk("unsupported_rollback_accepted", json!({})));
+                return;
+            }
+            if hist.len() >= depth {
+                continue;
+            }
+            for t in 0..nv {
+                let mut c2 = m.clone();
+                let r = c2.consume_token(t);
+                if em.contains(&t) != r.is_ok() {
+                    ctx.violation(mk("commit_vs_mask", json!({"token": t, "engine_ok": r.is_ok(), "in_mask": em.contains(&t)})));
+                    return;
+                }
+                if r.is_ok() && t != v1.eos {
+                    let b = &v1.tokens[t as usize];
+                    let mut s2 = st.clone();
+                    if prefix_x && !st.x {
+                        s2.x = true;
+                    } else if b == b"," {
+                        s2.seg += 1;
+                        s2.len = 0;
+                        s2.toks = 0;
+                    } else {
+                        s2.len += b.len();
+                        s2.toks += 1;
+                    }
+                    let mut h2 = hist.clone();
+                    h2.push(t);
+                    stack.push((c2, s2, h2));
+                }
+            }
+        }
+        ctx.count("max_tokens_grammars", 1);
+    });
+    let c = n.load(Ordering::Relaxed);
+    ctx.count("max_tokens_nodes", c);
+    ctx.states.fetch_add(c, Ordering::Relaxed);
+    ctx.transitions.fetch_add(c * 8, Ordering::Relaxed);
+    ctx.validated.fetch_add(c, Ordering::Relaxed);
+}
+
+// ---------------------------------------------------------------------------------------
 // (b) stop controller
 
 #[derive(Clone, Debug)]
@@ -829,6 +999,7 @@ fn valid_prefix(b: &[u8]) -> bool {
 pub fn run(ctx: &Ctx) -> Coverage {
     run_protocol(ctx);
     ctx.note(format!("protocol done at {:.1}s", ctx.elapsed()));
+    run_max_tokens(ctx);
     run_stop_controller(ctx);
     ctx.note(format!("stop controller done at {:.1}s", ctx.elapsed()));
     ctx.sample(json!({"protocol": "matcher: commit(0), mask, commit(9 = out of range), rollback(1)", "stop_controller": "stops {ab, b}, tokens [x, a, b]"}));
@@ -838,6 +1009,6 @@ pub fn run(ctx: &Ctx) -> Coverage {
         ctx.machinery_error("vacuous run");
     }
     Coverage::StateGraph {
-        rule: "(a) every call sequence up to a depth bound over {commit of every token id incl. out-of-range, rollback k (legal and too far), mask, validate-all, reset, ff queries} on the Matcher and {compute_mask, commit_token of every id / out-of-range / None} on the Constraint, for 7 grammars whose language a reference DFA knows, single- and two-EOS vocabularies; a protocol model (text, stopped, failed) + the DFA predict stop, accepting, mask and every call's success; (b) stop controller: 30 configurations of stop tokens / strings / regexes x every token sequence up to a length bound over a 17-token vocabulary (multi-byte characters split across tokens, special and empty tokens): output compared with the decoded text before the first stop (earliest end, leftmost start), chunks valid UTF-8, nothing after stop, no panic".into(),
+        rule: "(a) every call sequence up to a depth bound over {commit of every token id incl. out-of-range, rollback k (legal and too far), mask, validate-all, reset, ff queries} on the Matcher and {compute_mask, commit_token of every id / out-of-range / None} on the Constraint, for 7 grammars whose language a reference DFA knows, single- and two-EOS vocabularies; a protocol model (text, stopped, failed) + the DFA predict stop, accepting, mask and every call's success; (a') max_tokens=: 7 grammars with token-limited gen rules against a token-level model (tokens consumed per rule; one-sided for the limit, which the documentation gives as an upper bound: the engine may end the terminal earlier, never later), every token id in every state to depth 5/6: mask, accepting, stop, commit result, rollback refusal; (b) stop controller: 30 configurations of stop tokens / strings / regexes x every token sequence up to a length bound over a 17-token vocabulary (multi-byte characters split across tokens, special and empty tokens): output compared with the decoded text before the first stop (earliest end, leftmost start), chunks valid UTF-8, nothing after stop, no panic".into(),
     }
 }
